@@ -405,7 +405,9 @@ func runConverge(r *vs.Rand, i int, seed uint64, out *vs.Out) {
 		if history && (k == 3 || k == 5) {
 			sc.setParentImage(fmt.Sprintf("v%d", k))
 		}
-		if history && k == 7 {
+		if c0 := cfg.Children[0]; history && k == 7 && (c0.Namespaced || !cfg.ParentNamespaced) {
+			// (not for a cluster-scoped child kind under a namespaced parent: such objects carry a namespace in their body
+			// that is not part of their key)
 			c := cfg.Children[0]
 			puid := objStr(p, "metadata", "uid")
 			for _, o := range sc.w.sim.List(c.group(), c.Resource) {
